@@ -68,7 +68,7 @@ func checkC17(c *Ctx) {
 		}
 		var first string
 		for mi, m := range addrModes {
-			if quick(c) && mi%3 != r%3 {
+			if quick(c) && (mi+r)%5 != 0 { // quick: a fifth of the addressing modes per repository
 				continue
 			}
 			for _, procs := range []int{1, 2, 4, 16} {
